@@ -374,3 +374,815 @@ Example clean_merge_example :
   /\ merge_spec (JObj [(k_a, JNum 1); (k_b, JNum 1)]) (JObj [(k_a, JNum 2); (k_b, JNum 1)]) (JObj [(k_a, JNum 1); (k_b, JNum 3)])
   = MMerged (JObj [(k_a, JNum 2); (k_b, JNum 3)]).
 Proof. vm_compute. split; reflexivity. Qed.
+
+(* ------------------------------------------------------------------ *)
+(* 4. The SQLite4 varint preserves order: loc_order for the implementation's encoder, no hypothesis left. *)
+Lemma be_cmp_S k : forall a b, lex_cmp (be (S k) a) (be (S k) b) = (a ?= b).
+Proof.
+  induction k as [|k IH]; intros a b.
+  - cbn [be lex_cmp N.of_nat]. change (256 ^ 0) with 1. rewrite !N.div_1_r.
+    destruct (a ?= b); reflexivity.
+  - change (be (S (S k)) a) with ((a / 256 ^ N.of_nat (S k)) :: be (S k) (a mod 256 ^ N.of_nat (S k))).
+    change (be (S (S k)) b) with ((b / 256 ^ N.of_nat (S k)) :: be (S k) (b mod 256 ^ N.of_nat (S k))).
+    cbn [lex_cmp]. rewrite IH.
+    set (P := 256 ^ N.of_nat (S k)).
+    assert (HP : P <> 0) by (unfold P; apply N.pow_nonzero; discriminate).
+    pose proof (N.div_mod a P HP) as Ha. pose proof (N.div_mod b P HP) as Hb.
+    pose proof (N.mod_lt a P HP) as Ra. pose proof (N.mod_lt b P HP) as Rb.
+    set (qa := a / P) in *. set (qb := b / P) in *. set (ra := a mod P) in *. set (rb := b mod P) in *.
+    clearbody qa qb ra rb. clearbody P.
+    destruct (qa ?= qb) eqn:E.
+    + apply N.compare_eq in E. subst qb. subst a b.
+      destruct (ra ?= rb) eqn:F; symmetry.
+      * apply N.compare_eq_iff. apply N.compare_eq in F. subst rb. reflexivity.
+      * apply N.compare_lt_iff. change (ra < rb) in F. apply N.add_lt_mono_l. exact F.
+      * apply N.compare_gt_iff. apply N.compare_gt_iff in F. apply N.add_lt_mono_l. exact F.
+    + change (qa < qb) in E. symmetry. apply N.compare_lt_iff.
+      assert (H1 : P * (qa + 1) <= P * qb). { apply N.mul_le_mono_l. lia. }
+      rewrite N.mul_add_distr_l, N.mul_1_r in H1. lia.
+    + apply N.compare_gt_iff in E. symmetry. apply N.compare_gt_iff.
+      assert (H1 : P * (qb + 1) <= P * qa) by (apply N.mul_le_mono_l; lia).
+      rewrite N.mul_add_distr_l, N.mul_1_r in H1. lia.
+Qed.
+
+Lemma pair_lt c x y : x < y -> lex_cmp [x / 256 + c; x mod 256] [y / 256 + c; y mod 256] = Lt.
+Proof.
+  intros H. cbn [lex_cmp].
+  assert (H256 : 256 <> 0) by discriminate.
+  pose proof (N.div_mod x 256 H256) as Hx. pose proof (N.div_mod y 256 H256) as Hy.
+  pose proof (N.mod_lt x 256 H256) as Rx. pose proof (N.mod_lt y 256 H256) as Ry.
+  set (qx := x / 256) in *. set (qy := y / 256) in *. set (rx := x mod 256) in *. set (ry := y mod 256) in *.
+  clearbody qx qy rx ry.
+  destruct (qx + c ?= qy + c) eqn:E.
+  - apply N.compare_eq in E. assert (HH : rx < ry) by lia.
+    rewrite (proj2 (N.compare_lt_iff rx ry) HH). reflexivity.
+  - reflexivity.
+  - apply N.compare_gt_iff in E. lia.
+Qed.
+
+Lemma p24 : 2 ^ 24 = 16777216. Proof. reflexivity. Qed.
+Lemma p32 : 2 ^ 32 = 4294967296. Proof. reflexivity. Qed.
+Lemma p40 : 2 ^ 40 = 1099511627776. Proof. reflexivity. Qed.
+Lemma p48 : 2 ^ 48 = 281474976710656. Proof. reflexivity. Qed.
+Lemma p56 : 2 ^ 56 = 72057594037927936. Proof. reflexivity. Qed.
+
+Ltac dl x c := let E := fresh "E" in destruct (x <? c) eqn:E; [apply N.ltb_lt in E | apply N.ltb_ge in E].
+
+Ltac head_lt :=
+  match goal with
+  | |- match (?x ?= ?y) with Eq => _ | Lt => Lt | Gt => Gt end = Lt =>
+    let HH := fresh in assert (HH : x < y) by lia; rewrite (proj2 (N.compare_lt_iff x y) HH); reflexivity
+  end.
+Ltac head_eq_be :=
+  rewrite N.compare_refl; rewrite be_cmp_S; apply N.compare_lt_iff; lia.
+
+Lemma varint_lt a b : a < b -> lex_cmp (varint a) (varint b) = Lt.
+Proof.
+  intros H. unfold varint. rewrite p24, p32, p40, p48, p56.
+  assert (Qa : 241 <= a -> a < 2288 -> (a - 240) / 256 < 8).
+  { intros. apply N.div_lt_upper_bound; [discriminate|]. change (256 * 8) with 2048. lia. }
+  assert (Qb : 241 <= b -> b < 2288 -> (b - 240) / 256 < 8).
+  { intros. apply N.div_lt_upper_bound; [discriminate|]. change (256 * 8) with 2048. lia. }
+  dl a 241.
+  { dl b 241. { cbn [lex_cmp]. rewrite (proj2 (N.compare_lt_iff a b) H). reflexivity. }
+    dl b 2288. { specialize (Qb E0 E1). set (qb := (b - 240) / 256) in *. clearbody qb. cbn [lex_cmp]. head_lt. }
+    dl b 67824; [cbn [lex_cmp]; head_lt|]. dl b 16777216; [cbn [lex_cmp]; head_lt|].
+    dl b 4294967296; [cbn [lex_cmp]; head_lt|]. dl b 1099511627776; [cbn [lex_cmp]; head_lt|].
+    dl b 281474976710656; [cbn [lex_cmp]; head_lt|]. dl b 72057594037927936; cbn [lex_cmp]; head_lt. }
+  dl b 241; [lia|].
+  dl a 2288.
+  { specialize (Qa E E1).
+    dl b 2288.
+    { replace ((a - 240) / 256 + 241) with ((a - 240) / 256 + 241) by reflexivity.
+      apply pair_lt. lia. }
+    set (qa := (a - 240) / 256) in *. clearbody qa.
+    dl b 67824; [cbn [lex_cmp]; head_lt|]. dl b 16777216; [cbn [lex_cmp]; head_lt|].
+    dl b 4294967296; [cbn [lex_cmp]; head_lt|]. dl b 1099511627776; [cbn [lex_cmp]; head_lt|].
+    dl b 281474976710656; [cbn [lex_cmp]; head_lt|]. dl b 72057594037927936; cbn [lex_cmp]; head_lt. }
+  dl b 2288; [lia|].
+  dl a 67824.
+  { dl b 67824. { cbn [lex_cmp]. head_eq_be. }
+    dl b 16777216; [cbn [lex_cmp]; head_lt|].
+    dl b 4294967296; [cbn [lex_cmp]; head_lt|]. dl b 1099511627776; [cbn [lex_cmp]; head_lt|].
+    dl b 281474976710656; [cbn [lex_cmp]; head_lt|]. dl b 72057594037927936; cbn [lex_cmp]; head_lt. }
+  dl b 67824; [lia|].
+  dl a 16777216.
+  { dl b 16777216. { cbn [lex_cmp]. head_eq_be. }
+    dl b 4294967296; [cbn [lex_cmp]; head_lt|]. dl b 1099511627776; [cbn [lex_cmp]; head_lt|].
+    dl b 281474976710656; [cbn [lex_cmp]; head_lt|]. dl b 72057594037927936; cbn [lex_cmp]; head_lt. }
+  dl b 16777216; [lia|].
+  dl a 4294967296.
+  { dl b 4294967296. { cbn [lex_cmp]. head_eq_be. }
+    dl b 1099511627776; [cbn [lex_cmp]; head_lt|].
+    dl b 281474976710656; [cbn [lex_cmp]; head_lt|]. dl b 72057594037927936; cbn [lex_cmp]; head_lt. }
+  dl b 4294967296; [lia|].
+  dl a 1099511627776.
+  { dl b 1099511627776. { cbn [lex_cmp]. head_eq_be. }
+    dl b 281474976710656; [cbn [lex_cmp]; head_lt|]. dl b 72057594037927936; cbn [lex_cmp]; head_lt. }
+  dl b 1099511627776; [lia|].
+  dl a 281474976710656.
+  { dl b 281474976710656. { cbn [lex_cmp]. head_eq_be. }
+    dl b 72057594037927936; cbn [lex_cmp]; head_lt. }
+  dl b 281474976710656; [lia|].
+  dl a 72057594037927936.
+  { dl b 72057594037927936. { cbn [lex_cmp]. head_eq_be. } cbn [lex_cmp]. head_lt. }
+  dl b 72057594037927936; [lia|].
+  cbn [lex_cmp]. head_eq_be.
+Qed.
+
+Theorem varint_mono : forall a b, lex_cmp (varint a) (varint b) = (a ?= b).
+Proof.
+  intros a b. destruct (a ?= b) eqn:E.
+  - apply N.compare_eq in E. subst. apply lex_cmp_refl.
+  - apply varint_lt. exact E.
+  - rewrite lex_cmp_antisym. rewrite varint_lt; [reflexivity|]. apply N.compare_gt_iff in E. exact E.
+Qed.
+
+Theorem loc_order : forall p q, Forall key_ok p -> Forall key_ok q ->
+  cmp_keys_with varint_length (ekey p) (ekey q) = doc_cmp p q.
+Proof. exact (loc_order_partial varint_mono). Qed.
+
+(* the typed document order agrees with it whenever the two paths do not put an index and a key at
+   the same place *)
+Fixpoint kind_compatible (p q : path) : bool :=
+  match p, q with
+  | PK _ :: p', PK _ :: q' | PI _ :: p', PI _ :: q' => kind_compatible p' q'
+  | _ :: _, _ :: _ => false
+  | _, _ => true
+  end.
+
+Lemma doc_cmp_tcmp p : forall q, kind_compatible p q = true -> doc_cmp p q = tcmp p q.
+Proof.
+  induction p as [|a p IH]; intros [|b q] H; try reflexivity.
+  destruct a as [x|x], b as [y|y]; cbn [kind_compatible] in H; try discriminate;
+    unfold doc_cmp, tcmp in *; cbn [path_cmp lexg elem_cmp telem_cmp];
+    (destruct (lex_cmp x y) + destruct (x ?= y)); try reflexivity; apply IH; exact H.
+Qed.
+
+(* ------------------------------------------------------------------ *)
+(* 5. Order laws: generic lexicographic order, then the typed document order on paths. *)
+Section LexLaws.
+  Context {A : Type}.
+  Variable ec : A -> A -> comparison.
+  Hypothesis ec_refl : forall a, ec a a = Eq.
+  Hypothesis ec_eq : forall a b, ec a b = Eq -> a = b.
+  Hypothesis ec_antisym : forall a b, ec b a = CompOpp (ec a b).
+  Hypothesis ec_trans : forall a b c, ec a b = Lt -> ec b c = Lt -> ec a c = Lt.
+
+  Lemma lexg_refl p : lexg ec p p = Eq.
+  Proof. induction p as [|a p IH]; cbn [lexg]; [reflexivity|]. rewrite ec_refl. exact IH. Qed.
+
+  Lemma lexg_eq p : forall q, lexg ec p q = Eq -> p = q.
+  Proof.
+    induction p as [|a p IH]; intros [|b q] H; cbn [lexg] in H; try discriminate; [reflexivity|].
+    destruct (ec a b) eqn:E; try discriminate. apply ec_eq in E. subst. f_equal. apply IH. exact H.
+  Qed.
+
+  Lemma lexg_antisym p : forall q, lexg ec q p = CompOpp (lexg ec p q).
+  Proof.
+    induction p as [|a p IH]; intros [|b q]; cbn [lexg CompOpp]; try reflexivity.
+    rewrite (ec_antisym a b). destruct (ec a b); cbn [CompOpp]; try reflexivity. apply IH.
+  Qed.
+
+  Lemma lexg_trans p : forall q r, lexg ec p q = Lt -> lexg ec q r = Lt -> lexg ec p r = Lt.
+  Proof.
+    induction p as [|a p IH]; intros [|b q] [|c r] H1 H2; cbn [lexg] in *; try discriminate; try reflexivity.
+    destruct (ec a b) eqn:E1; try discriminate.
+    - apply ec_eq in E1. subst b. destruct (ec a c) eqn:E2; try discriminate; [|reflexivity].
+      apply (IH q r); assumption.
+    - destruct (ec b c) eqn:E2; try discriminate.
+      + apply ec_eq in E2. subst c. rewrite E1. reflexivity.
+      + rewrite (ec_trans _ _ _ E1 E2). reflexivity.
+  Qed.
+End LexLaws.
+
+Lemma lex_cmp_lexg a : forall b, lex_cmp a b = lexg N.compare a b.
+Proof. induction a as [|x a IH]; intros [|y b]; cbn [lex_cmp lexg]; try reflexivity; try (rewrite IH; reflexivity). Qed.
+
+Lemma N_compare_antisym a b : (b ?= a) = CompOpp (a ?= b).
+Proof. apply N.compare_antisym. Qed.
+Lemma N_compare_trans a b c : (a ?= b) = Lt -> (b ?= c) = Lt -> (a ?= c) = Lt.
+Proof. intros H1 H2. change (a < c). change (a < b) in H1. change (b < c) in H2. lia. Qed.
+
+Lemma lex_cmp_trans a b c : lex_cmp a b = Lt -> lex_cmp b c = Lt -> lex_cmp a c = Lt.
+Proof.
+  rewrite !lex_cmp_lexg. apply lexg_trans.
+  - intros x y. apply N.compare_eq.
+  - exact N_compare_trans.
+Qed.
+
+Lemma telem_refl a : telem_cmp a a = Eq.
+Proof. destruct a; cbn [telem_cmp]; [apply lex_cmp_refl | apply N.compare_refl]. Qed.
+Lemma telem_eq a b : telem_cmp a b = Eq -> a = b.
+Proof.
+  destruct a as [x|x], b as [y|y]; cbn [telem_cmp]; intros H; try discriminate.
+  - f_equal. apply lex_cmp_eq. exact H.
+  - f_equal. apply N.compare_eq. exact H.
+Qed.
+Lemma telem_antisym a b : telem_cmp b a = CompOpp (telem_cmp a b).
+Proof.
+  destruct a as [x|x], b as [y|y]; cbn [telem_cmp CompOpp]; try reflexivity.
+  - apply lex_cmp_antisym.
+  - apply N.compare_antisym.
+Qed.
+Lemma telem_trans a b c : telem_cmp a b = Lt -> telem_cmp b c = Lt -> telem_cmp a c = Lt.
+Proof.
+  destruct a as [x|x], b as [y|y], c as [z|z]; cbn [telem_cmp]; intros H1 H2; try discriminate; try reflexivity.
+  - exact (lex_cmp_trans _ _ _ H1 H2).
+  - exact (N_compare_trans _ _ _ H1 H2).
+Qed.
+
+Lemma tcmp_refl p : tcmp p p = Eq.
+Proof. apply lexg_refl. exact telem_refl. Qed.
+Lemma tcmp_eq a b : tcmp a b = Eq -> a = b.
+Proof. apply lexg_eq. exact telem_eq. Qed.
+Lemma tcmp_antisym a b : tcmp b a = CompOpp (tcmp a b).
+Proof. apply lexg_antisym. exact telem_antisym. Qed.
+Lemma tcmp_trans a b c : tcmp a b = Lt -> tcmp b c = Lt -> tcmp a c = Lt.
+Proof. apply lexg_trans; [exact telem_eq | exact telem_trans]. Qed.
+
+Lemma pelem_eqb_eq a b : pelem_eqb a b = true -> a = b.
+Proof.
+  destruct a as [x|x], b as [y|y]; cbn [pelem_eqb]; intros H; try discriminate.
+  - f_equal. apply beq_bytes_spec. exact H.
+  - f_equal. apply N.eqb_eq. exact H.
+Qed.
+Lemma pelem_eqb_refl a : pelem_eqb a a = true.
+Proof. destruct a; cbn [pelem_eqb]; [apply beq_bytes_refl | apply N.eqb_refl]. Qed.
+
+Lemma path_same_arr_sym a : forall b, path_same_arr a b = path_same_arr b a.
+Proof.
+  induction a as [|x a IH]; intros [|y b]; try reflexivity.
+  - destruct y; reflexivity.
+  - destruct x; reflexivity.
+  - destruct x as [k|i], y as [k'|j]; cbn [path_same_arr]; try reflexivity.
+    rewrite IH. f_equal.
+    destruct (beq_bytes k k') eqn:E1, (beq_bytes k' k) eqn:E2; try reflexivity.
+    + apply beq_bytes_spec in E1. subst. rewrite beq_bytes_refl in E2. discriminate.
+    + apply beq_bytes_spec in E2. subst. rewrite beq_bytes_refl in E1. discriminate.
+Qed.
+
+Lemma path_prefix_lt pre : forall p, path_prefix p pre = true -> tcmp pre p = Lt.
+Proof.
+  induction pre as [|b pre IH]; intros [|a p] H; cbn [path_prefix] in H; try discriminate; [reflexivity|].
+  apply andb_true_iff in H as [H1 H2]. apply pelem_eqb_eq in H1. subst a.
+  unfold tcmp. cbn [lexg]. rewrite telem_refl. apply IH. exact H2.
+Qed.
+
+(* an element between two equal elements (non-strictly) is that element *)
+Lemma telem_squeeze a b : telem_cmp a b <> Gt -> telem_cmp b a <> Gt -> telem_cmp a b = Eq.
+Proof.
+  intros H1 H2. rewrite telem_antisym in H2. destruct (telem_cmp a b); cbn [CompOpp] in H2; congruence.
+Qed.
+
+Lemma tcmp_cons_lt a x b y : tcmp (a :: x) (b :: y) = Lt ->
+  telem_cmp a b = Lt \/ (a = b /\ tcmp x y = Lt).
+Proof.
+  unfold tcmp. cbn [lexg]. destruct (telem_cmp a b) eqn:E; intros H; try discriminate.
+  - right. split; [apply telem_eq; exact E | exact H].
+  - left. reflexivity.
+Qed.
+
+Lemma prefix_convex x : forall y z, tcmp x y = Lt -> tcmp y z = Lt -> path_prefix z x = true -> path_prefix y x = true.
+Proof.
+  induction x as [|a x IH]; intros y z H1 H2 HP.
+  - destruct y; [discriminate H1|reflexivity].
+  - destruct z as [|c z]; [discriminate HP|]. cbn [path_prefix] in HP.
+    apply andb_true_iff in HP as [HP1 HP2]. apply pelem_eqb_eq in HP1. subst c.
+    destruct y as [|b y]; [discriminate H1|].
+    apply tcmp_cons_lt in H1. apply tcmp_cons_lt in H2.
+    destruct H1 as [H1 | [-> H1]].
+    + destruct H2 as [H2 | [-> H2]].
+      * rewrite telem_antisym, H1 in H2. discriminate.
+      * rewrite telem_refl in H1. discriminate.
+    + destruct H2 as [H2 | [_ H2]].
+      * rewrite telem_refl in H2. discriminate.
+      * cbn [path_prefix]. rewrite pelem_eqb_refl. cbn [andb]. apply (IH y z); assumption.
+Qed.
+
+Lemma same_arr_convex x : forall y z, tcmp x y = Lt -> tcmp y z = Lt -> path_same_arr x z = true -> path_same_arr x y = true.
+Proof.
+  induction x as [|a x IH]; intros y z H1 H2 HS; [discriminate HS|].
+  destruct z as [|c z]; [destruct a; discriminate HS|].
+  destruct y as [|b y]; [discriminate H1|].
+  apply tcmp_cons_lt in H1. apply tcmp_cons_lt in H2.
+  destruct a as [k|i], c as [k'|j]; cbn [path_same_arr] in HS; try discriminate.
+  - apply andb_true_iff in HS as [HS1 HS2]. apply beq_bytes_spec in HS1. subst k'.
+    destruct H1 as [H1 | [<- H1]].
+    + destruct H2 as [H2 | [-> H2]].
+      * rewrite telem_antisym, H1 in H2. discriminate.
+      * rewrite telem_refl in H1. discriminate.
+    + destruct H2 as [H2 | [_ H2]].
+      * rewrite telem_refl in H2. discriminate.
+      * cbn [path_same_arr]. rewrite beq_bytes_refl. cbn [andb]. apply (IH y z); assumption.
+  - destruct b as [k|m]; [|reflexivity].
+    destruct H2 as [H2 | [H2 _]]; [discriminate H2 | discriminate H2].
+Qed.
+
+Lemma path_rel_convex x y z : tcmp x y = Lt -> tcmp y z = Lt ->
+  rel path_prefix path_same_arr x z = true -> rel path_prefix path_same_arr x y = true.
+Proof.
+  intros H1 H2 HR. unfold rel in *.
+  apply orb_true_iff in HR as [HR | HR]; [apply orb_true_iff in HR as [HR | HR]|].
+  - rewrite (same_arr_convex x y z H1 H2 HR). reflexivity.
+  - (* z is a proper prefix of x: then z < x, against x < y < z *)
+    apply path_prefix_lt in HR. pose proof (tcmp_trans _ _ _ H1 H2) as H3.
+    rewrite tcmp_antisym, H3 in HR. discriminate.
+  - rewrite (prefix_convex x y z H1 H2 HR). rewrite !orb_true_r. reflexivity.
+Qed.
+
+(* three_way_spec_gen for the document order: no abstract premise left *)
+Theorem three_way_doc_spec : forall L R,
+  StronglySorted (klt tcmp) L -> StronglySorted (klt tcmp) R ->
+  ForallOrdPairs (unrelated path_prefix path_same_arr) L -> ForallOrdPairs (unrelated path_prefix path_same_arr) R ->
+  three_way_doc L R = three_way_spec_result L R.
+Proof.
+  intros L R HL HR UL UR. unfold three_way_doc.
+  rewrite (three_way_spec_gen tcmp path_prefix path_same_arr tcmp_eq tcmp_antisym tcmp_trans
+             path_same_arr_sym (fun p pre => path_prefix_lt pre p) path_rel_convex L R HL HR UL UR).
+  reflexivity.
+Qed.
+
+(* ------------------------------------------------------------------ *)
+(* 6. json_diff emits its edits in strictly increasing document order. *)
+Definition sortedD (D : list diff) : Prop := StronglySorted (klt tcmp) D.
+Definition ext (pre : path) (d : diff) : Prop := exists suf, d_key d = pre ++ suf.
+Definition under (pre : path) (P : pelem -> Prop) (d : diff) : Prop :=
+  exists e suf, d_key d = pre ++ e :: suf /\ P e.
+
+Lemma tcmp_app_l pre : forall x y, tcmp (pre ++ x) (pre ++ y) = tcmp x y.
+Proof.
+  induction pre as [|e pre IH]; intros x y; [reflexivity|].
+  unfold tcmp in *. cbn [app lexg]. rewrite telem_refl. apply IH.
+Qed.
+
+Lemma klt_under pre e1 s1 e2 s2 d1 d2 :
+  d_key d1 = pre ++ e1 :: s1 -> d_key d2 = pre ++ e2 :: s2 -> telem_cmp e1 e2 = Lt -> klt tcmp d1 d2.
+Proof.
+  intros H1 H2 HE. unfold klt. rewrite H1, H2, tcmp_app_l. unfold tcmp. cbn [lexg]. rewrite HE. reflexivity.
+Qed.
+
+Lemma sorted_app A : forall B, sortedD A -> sortedD B ->
+  (forall a b, In a A -> In b B -> klt tcmp a b) -> sortedD (A ++ B).
+Proof.
+  unfold sortedD. induction A as [|a A IH]; intros B HA HB HX; [exact HB|].
+  inversion HA as [|a' A' HA' HF]; subst. cbn [app]. constructor.
+  - apply IH; [exact HA' | exact HB |]. intros x y Hx Hy. apply HX; [right; exact Hx | exact Hy].
+  - apply Forall_app. split; [exact HF|]. apply Forall_forall. intros y Hy. apply HX; [left; reflexivity | exact Hy].
+Qed.
+
+Lemma under_ext pre P d : under pre P d -> ext pre d.
+Proof. intros [e [suf [H _]]]. exists (e :: suf). exact H. Qed.
+
+Lemma ext_under pre e d : ext (pre ++ [e]) d -> under pre (fun x => x = e) d.
+Proof. intros [suf H]. exists e, suf. split; [|reflexivity]. rewrite H, <- app_assoc. reflexivity. Qed.
+
+Lemma under_weaken pre (P Q : pelem -> Prop) D : (forall e, P e -> Q e) -> Forall (under pre P) D -> Forall (under pre Q) D.
+Proof.
+  intros HPQ HF. eapply Forall_impl; [|exact HF]. intros d [e [suf [H HP]]]. exists e, suf. split; [exact H | apply HPQ; exact HP].
+Qed.
+
+(* a diff at element e0 comes before every diff under a larger element *)
+Lemma first_lt_all pre e0 s0 d0 (P : pelem -> Prop) D :
+  d_key d0 = pre ++ e0 :: s0 -> (forall e, P e -> telem_cmp e0 e = Lt) ->
+  Forall (under pre P) D -> Forall (klt tcmp d0) D.
+Proof.
+  intros H0 HP HF. eapply Forall_impl; [|exact HF]. intros d [e [suf [H He]]].
+  eapply klt_under; [exact H0 | exact H | apply HP; exact He].
+Qed.
+
+Lemma keys_sorted_inv k v t : keys_sorted ((k, v) :: t) = true ->
+  keys_sorted t = true /\ Forall (fun kv => lex_cmp k (fst kv) = Lt) t.
+Proof.
+  revert k v. induction t as [|[k' v'] t IH]; intros k v H.
+  - split; [reflexivity | constructor].
+  - cbn [keys_sorted] in H. destruct (lex_cmp k k') eqn:E; try discriminate.
+    change (keys_sorted ((k', v') :: t) = true) in H. split; [exact H|].
+    constructor; [exact E|]. destruct (IH k' v' H) as [_ HF].
+    eapply Forall_impl; [|exact HF]. intros kv Hkv. cbn beta in *. eapply lex_cmp_trans; [exact E | exact Hkv].
+Qed.
+
+Definition key_in (S : list (bytes * json)) (e : pelem) : Prop :=
+  exists k, e = PK k /\ In k (map fst S).
+Definition key_gt (m : bytes) (e : pelem) : Prop := exists k, e = PK k /\ lex_cmp m k = Lt.
+
+Lemma key_in_gt m S e : Forall (fun kv => lex_cmp m (fst kv) = Lt) S -> key_in S e -> key_gt m e.
+Proof.
+  intros HF [k [-> Hin]]. exists k. split; [reflexivity|].
+  apply in_map_iff in Hin as [[k' v] [<- Hin]]. rewrite Forall_forall in HF. exact (HF _ Hin).
+Qed.
+
+Lemma key_gt_lt m e : key_gt m e -> telem_cmp (PK m) e = Lt.
+Proof. intros [k [-> H]]. exact H. Qed.
+
+Section DiffSorted.
+  Variable rec : path -> json -> json -> list diff.
+  Hypothesis rec_ok : forall pre a b, wf_json a = true -> wf_json b = true ->
+    Forall (ext pre) (rec pre a b) /\ sortedD (rec pre a b).
+
+  Definition mk (pre : path) (e : pelem) (f t : option json) : diff := {| d_key := pre ++ [e]; d_from := f; d_to := t |}.
+
+  Lemma od_nil_cons pre ky vy ys :
+    obj_diff rec pre [] ((ky, vy) :: ys) = mk pre (PK ky) None (Some vy) :: obj_diff rec pre [] ys.
+  Proof. reflexivity. Qed.
+  Lemma od_cons_nil pre kx vx xs :
+    obj_diff rec pre ((kx, vx) :: xs) [] = mk pre (PK kx) (Some vx) None :: obj_diff rec pre xs [].
+  Proof. reflexivity. Qed.
+  Lemma od_cons_cons pre kx vx xs ky vy ys :
+    obj_diff rec pre ((kx, vx) :: xs) ((ky, vy) :: ys) =
+    match lex_cmp kx ky with
+    | Gt => mk pre (PK ky) None (Some vy) :: obj_diff rec pre ((kx, vx) :: xs) ys
+    | Lt => mk pre (PK kx) (Some vx) None :: obj_diff rec pre xs ((ky, vy) :: ys)
+    | Eq => rec (pre ++ [PK kx]) vx vy ++ obj_diff rec pre xs ys
+    end.
+  Proof. reflexivity. Qed.
+
+  Definition wf_vals (l : list (bytes * json)) : Prop := forallb (fun kv => wf_json (snd kv)) l = true.
+
+  Lemma wf_vals_cons k v t : wf_vals ((k, v) :: t) -> wf_json v = true /\ wf_vals t.
+  Proof. unfold wf_vals. cbn [forallb snd]. intros H. apply andb_true_iff in H. exact H. Qed.
+
+  Lemma mk_key pre e f t : d_key (mk pre e f t) = pre ++ e :: [].
+  Proof. reflexivity. Qed.
+
+  Lemma obj_diff_ok pre xs : forall ys,
+    keys_sorted xs = true -> keys_sorted ys = true -> wf_vals xs -> wf_vals ys ->
+    Forall (under pre (fun e => key_in xs e \/ key_in ys e)) (obj_diff rec pre xs ys) /\ sortedD (obj_diff rec pre xs ys).
+  Proof.
+    induction xs as [|[kx vx] xs IHx]; intros ys; induction ys as [|[ky vy] ys IHy]; intros Sx Sy Wx Wy.
+    - split; constructor.
+    - rewrite od_nil_cons. destruct (keys_sorted_inv _ _ _ Sy) as [Sy' Gy]. destruct (wf_vals_cons _ _ _ Wy) as [_ Wy'].
+      destruct (IHy Sx Sy' Wx Wy') as [F S]. split.
+      + constructor.
+        * exists (PK ky), []. split; [reflexivity|]. right. exists ky. split; [reflexivity | left; reflexivity].
+        * eapply under_weaken; [|exact F]. intros e [H|[k [-> H]]]; [left; exact H | right; exists k; split; [reflexivity | right; exact H]].
+      + constructor; [exact S|].
+        eapply (first_lt_all pre (PK ky) []); [reflexivity | | exact F].
+        intros e [[k [_ []]] | H]. apply key_gt_lt. exact (key_in_gt _ _ _ Gy H).
+    - rewrite od_cons_nil. destruct (keys_sorted_inv _ _ _ Sx) as [Sx' Gx]. destruct (wf_vals_cons _ _ _ Wx) as [_ Wx'].
+      destruct (IHx [] Sx' Sy Wx' Wy) as [F S]. split.
+      + constructor.
+        * exists (PK kx), []. split; [reflexivity|]. left. exists kx. split; [reflexivity | left; reflexivity].
+        * eapply under_weaken; [|exact F]. intros e [[k [-> H]]|H]; [left; exists k; split; [reflexivity | right; exact H] | right; exact H].
+      + constructor; [exact S|].
+        eapply (first_lt_all pre (PK kx) []); [reflexivity | | exact F].
+        intros e [H | [k [_ []]]]. apply key_gt_lt. exact (key_in_gt _ _ _ Gx H).
+    - rewrite od_cons_cons.
+      destruct (keys_sorted_inv _ _ _ Sx) as [Sx' Gx]. destruct (wf_vals_cons _ _ _ Wx) as [Wvx Wx'].
+      destruct (keys_sorted_inv _ _ _ Sy) as [Sy' Gy]. destruct (wf_vals_cons _ _ _ Wy) as [Wvy Wy'].
+      destruct (lex_cmp kx ky) eqn:C.
+      + (* same key: recurse into the values *)
+        apply lex_cmp_eq in C. subst ky.
+        destruct (rec_ok (pre ++ [PK kx]) vx vy Wvx Wvy) as [FA SA].
+        destruct (IHx ys Sx' Sy' Wx' Wy') as [F S].
+        assert (FA' : Forall (under pre (fun e => e = PK kx)) (rec (pre ++ [PK kx]) vx vy)).
+        { eapply Forall_impl; [|exact FA]. intros d Hd. apply ext_under. exact Hd. }
+        split.
+        * apply Forall_app. split.
+          -- eapply under_weaken; [|exact FA']. intros e ->. left. exists kx. split; [reflexivity | left; reflexivity].
+          -- eapply under_weaken; [|exact F]. intros e [[k [-> H]]|[k [-> H]]];
+               [left | right]; exists k; (split; [reflexivity | right; exact H]).
+        * apply sorted_app; [exact SA | exact S |].
+          intros a b Ha Hb. rewrite Forall_forall in FA', F.
+          destruct (FA' a Ha) as [e1 [s1 [K1 ->]]]. destruct (F b Hb) as [e2 [s2 [K2 H2]]].
+          eapply klt_under; [exact K1 | exact K2 |]. apply key_gt_lt.
+          destruct H2 as [H2|H2]; [exact (key_in_gt _ _ _ Gx H2) | exact (key_in_gt _ _ _ Gy H2)].
+      + (* key only in the from-object: removed *)
+        destruct (IHx ((ky, vy) :: ys) Sx' Sy Wx' Wy) as [F S]. split.
+        * constructor.
+          -- exists (PK kx), []. split; [reflexivity|]. left. exists kx. split; [reflexivity | left; reflexivity].
+          -- eapply under_weaken; [|exact F]. intros e [[k [-> H]]|H]; [left; exists k; split; [reflexivity | right; exact H] | right; exact H].
+        * constructor; [exact S|].
+          eapply (first_lt_all pre (PK kx) []); [reflexivity | | exact F].
+          intros e [H | [k [-> H]]]; [apply key_gt_lt; exact (key_in_gt _ _ _ Gx H)|].
+          cbn [map fst] in H. destruct H as [<- | H]; [exact C|].
+          cbn [telem_cmp]. eapply lex_cmp_trans; [exact C|].
+          apply in_map_iff in H as [[k' v'] [<- Hin]]. rewrite Forall_forall in Gy. exact (Gy _ Hin).
+      + (* key only in the to-object: added *)
+        assert (C' : lex_cmp ky kx = Lt) by (rewrite lex_cmp_antisym, C; reflexivity).
+        destruct (IHy Sx Sy' Wx Wy') as [F S]. split.
+        * constructor.
+          -- exists (PK ky), []. split; [reflexivity|]. right. exists ky. split; [reflexivity | left; reflexivity].
+          -- eapply under_weaken; [|exact F]. intros e [H|[k [-> H]]]; [left; exact H | right; exists k; split; [reflexivity | right; exact H]].
+        * constructor; [exact S|].
+          eapply (first_lt_all pre (PK ky) []); [reflexivity | | exact F].
+          intros e [[k [-> H]] | H]; [|apply key_gt_lt; exact (key_in_gt _ _ _ Gy H)].
+          cbn [map fst] in H. destruct H as [<- | H]; [exact C'|].
+          cbn [telem_cmp]. eapply lex_cmp_trans; [exact C'|].
+          apply in_map_iff in H as [[k' v'] [<- Hin]]. rewrite Forall_forall in Gx. exact (Gx _ Hin).
+  Qed.
+
+  (* arrays: matching indexes are compared, the tail of the longer one is added / removed *)
+  Fixpoint added_list (pre : path) (i : N) (ys : list json) : list diff :=
+    match ys with
+    | [] => []
+    | y :: ys' => mk pre (PI i) None (Some y) :: added_list pre (i + 1) ys'
+    end.
+
+  Lemma ad_nil pre ys : forall i, arr_diff rec pre i [] ys = added_list pre i ys.
+  Proof. induction ys as [|y ys IH]; intros i; [reflexivity|]. cbn [added_list]. rewrite <- IH. reflexivity. Qed.
+  Lemma ad_cons_nil pre i x xs :
+    arr_diff rec pre i (x :: xs) [] = mk pre (PI i) (Some x) None :: arr_diff rec pre (i + 1) xs [].
+  Proof. reflexivity. Qed.
+  Lemma ad_cons_cons pre i x xs y ys :
+    arr_diff rec pre i (x :: xs) (y :: ys) = rec (pre ++ [PI i]) x y ++ arr_diff rec pre (i + 1) xs ys.
+  Proof. reflexivity. Qed.
+
+  Definition idx_ge (i : N) (e : pelem) : Prop := exists j, e = PI j /\ i <= j.
+
+  Lemma idx_ge_lt i e : idx_ge (i + 1) e -> telem_cmp (PI i) e = Lt.
+  Proof. intros [j [-> H]]. cbn [telem_cmp]. apply N.compare_lt_iff. lia. Qed.
+  Lemma idx_ge_weaken i e : idx_ge (i + 1) e -> idx_ge i e.
+  Proof. intros [j [-> H]]. exists j. split; [reflexivity | lia]. Qed.
+  Lemma idx_ge_self i : idx_ge i (PI i).
+  Proof. exists i. split; [reflexivity | lia]. Qed.
+
+  Lemma added_list_ok pre ys : forall i,
+    Forall (under pre (idx_ge i)) (added_list pre i ys) /\ sortedD (added_list pre i ys).
+  Proof.
+    induction ys as [|y ys IH]; intros i; [split; constructor|].
+    cbn [added_list]. destruct (IH (i + 1)) as [F S]. split.
+    - constructor; [exists (PI i), []; split; [reflexivity | apply idx_ge_self]|].
+      eapply under_weaken; [|exact F]. apply idx_ge_weaken.
+    - constructor; [exact S|]. eapply (first_lt_all pre (PI i) []); [reflexivity | | exact F]. apply idx_ge_lt.
+  Qed.
+
+  Definition wf_list (l : list json) : Prop := forallb wf_json l = true.
+
+  Lemma arr_diff_ok pre xs : forall i ys, wf_list xs -> wf_list ys ->
+    Forall (under pre (idx_ge i)) (arr_diff rec pre i xs ys) /\ sortedD (arr_diff rec pre i xs ys).
+  Proof.
+    induction xs as [|x xs IH]; intros i ys Wx Wy.
+    - rewrite ad_nil. apply added_list_ok.
+    - unfold wf_list in Wx. cbn [forallb] in Wx. apply andb_true_iff in Wx as [Wvx Wx'].
+      destruct ys as [|y ys].
+      + rewrite ad_cons_nil. destruct (IH (i + 1) [] Wx' Wy) as [F S]. split.
+        * constructor; [exists (PI i), []; split; [reflexivity | apply idx_ge_self]|].
+          eapply under_weaken; [|exact F]. apply idx_ge_weaken.
+        * constructor; [exact S|]. eapply (first_lt_all pre (PI i) []); [reflexivity | | exact F]. apply idx_ge_lt.
+      + unfold wf_list in Wy. cbn [forallb] in Wy. apply andb_true_iff in Wy as [Wvy Wy'].
+        rewrite ad_cons_cons.
+        destruct (rec_ok (pre ++ [PI i]) x y Wvx Wvy) as [FA SA].
+        destruct (IH (i + 1) ys Wx' Wy') as [F S].
+        assert (FA' : Forall (under pre (fun e => e = PI i)) (rec (pre ++ [PI i]) x y)).
+        { eapply Forall_impl; [|exact FA]. intros d Hd. apply ext_under. exact Hd. }
+        split.
+        * apply Forall_app. split.
+          -- eapply under_weaken; [|exact FA']. intros e ->. apply idx_ge_self.
+          -- eapply under_weaken; [|exact F]. apply idx_ge_weaken.
+        * apply sorted_app; [exact SA | exact S |].
+          intros a b Ha Hb. rewrite Forall_forall in FA', F.
+          destruct (FA' a Ha) as [e1 [s1 [K1 ->]]]. destruct (F b Hb) as [e2 [s2 [K2 H2]]].
+          eapply klt_under; [exact K1 | exact K2 | apply idx_ge_lt; exact H2].
+  Qed.
+End DiffSorted.
+
+Lemma ext_self pre f t : ext pre {| d_key := pre; d_from := f; d_to := t |}.
+Proof. exists []. cbn. rewrite app_nil_r. reflexivity. Qed.
+
+Lemma single_ok pre d : ext pre d -> Forall (ext pre) [d] /\ sortedD [d].
+Proof. intros H. split; [constructor; [exact H | constructor] | constructor; constructor]. Qed.
+
+Theorem jdiff_sorted fuel : forall pre a b, wf_json a = true -> wf_json b = true ->
+  Forall (ext pre) (jdiff fuel pre a b) /\ sortedD (jdiff fuel pre a b).
+Proof.
+  induction fuel as [|f IH]; intros pre a b Wa Wb; [split; constructor|].
+  cbn [jdiff]. destruct (same_kind a b) eqn:SK; cbn [negb]; [|apply single_ok; apply ext_self].
+  destruct a, b; try discriminate SK;
+    try (match goal with |- context [if ?c then _ else _] => destruct c end; [split; constructor | apply single_ok; apply ext_self]).
+  - (* arrays *)
+    cbn [wf_json] in Wa, Wb.
+    destruct (arr_diff_ok (jdiff f) IH pre l 0 l0 Wa Wb) as [F S]. split; [|exact S].
+    eapply Forall_impl; [|exact F]. intros d. apply under_ext.
+  - (* objects *)
+    cbn [wf_json] in Wa, Wb. apply andb_true_iff in Wa as [Sa Wa]. apply andb_true_iff in Wb as [Sb Wb].
+    destruct (obj_diff_ok (jdiff f) IH pre l l0 Sa Sb Wa Wb) as [F S]. split; [|exact S].
+    eapply Forall_impl; [|exact F]. intros d. apply under_ext.
+Qed.
+
+Theorem json_diff_sorted a b : wf_json a = true -> wf_json b = true -> sortedD (json_diff a b).
+Proof. intros Wa Wb. exact (proj2 (jdiff_sorted _ [] a b Wa Wb)). Qed.
+
+(* ------------------------------------------------------------------ *)
+(* 7. MergeJSON = declarative merge, for every triple of well-formed documents that satisfies the
+   decidable side conditions.   Full statement (refuted by the three witnesses above):
+     forall b l r, wf_json b = true -> wf_json l = true -> wf_json r = true -> merge_json b l r = merge_spec b l r. *)
+Lemma three_way_ext c1 p1 s1 c2 p2 s2 : forall L R,
+  (forall l r, In l L -> In r R ->
+     c1 (d_key l) (d_key r) = c2 (d_key l) (d_key r) /\ p1 (d_key l) (d_key r) = p2 (d_key l) (d_key r)
+     /\ p1 (d_key r) (d_key l) = p2 (d_key r) (d_key l) /\ s1 (d_key l) (d_key r) = s2 (d_key l) (d_key r)) ->
+  three_way c1 p1 s1 L R = three_way c2 p2 s2 L R.
+Proof.
+  induction L as [|dl ls IHL]; intros R H.
+  - induction R as [|dr rs IHR]; [reflexivity|]. rewrite !tw3_nil_l. rewrite IHR; [reflexivity|].
+    intros l r [] _.
+  - induction R as [|dr rs IHR]; [rewrite !tw3_nil_r; reflexivity|].
+    rewrite !tw3_cons. cbv zeta.
+    destruct (H dl dr (or_introl eq_refl) (or_introl eq_refl)) as [Hc [Hp [Hp' Hs]]].
+    rewrite Hc, Hp, Hp', Hs.
+    rewrite (IHL (dr :: rs)) by (intros l r Hl Hr; apply H; [right; exact Hl | exact Hr]).
+    rewrite (IHL rs) by (intros l r Hl Hr; apply H; [right; exact Hl | right; exact Hr]).
+    rewrite IHR by (intros l r Hl Hr; apply H; [exact Hl | right; exact Hr]).
+    reflexivity.
+Qed.
+
+Lemma comparison_eqb_eq a b : comparison_eqb a b = true -> a = b.
+Proof. destruct a, b; cbn; intros H; try discriminate; reflexivity. Qed.
+
+Lemma pairwise_unrelated_spec L : pairwise_unrelated L = true ->
+  ForallOrdPairs (unrelated path_prefix path_same_arr) L.
+Proof.
+  induction L as [|d t IH]; intros H; [constructor|].
+  cbn [pairwise_unrelated] in H. apply andb_true_iff in H as [H1 H2]. constructor; [|apply IH; exact H2].
+  rewrite forallb_forall in H1. apply Forall_forall. intros e He. specialize (H1 e He).
+  apply negb_true_iff in H1. exact H1.
+Qed.
+
+Lemma removes_last_apply ops d : removes_last ops = true -> apply_edits ops d = fold_left apply_op ops d.
+Proof.
+  intros H. unfold apply_edits. f_equal.
+  induction ops as [|o t IH]; [reflexivity|].
+  cbn [removes_last] in H. cbn [filter]. destruct (is_remove o) eqn:E; cbn [negb].
+  - destruct t; [reflexivity | discriminate H].
+  - cbn [app]. f_equal. apply IH. exact H.
+Qed.
+
+Theorem merge_json_partial : forall b l r,
+  wf_json b = true -> wf_json l = true -> wf_json r = true ->
+  merge_side_conditions b l r = true ->
+  merge_json b l r = merge_spec b l r.
+Proof.
+  intros b l r Wb Wl Wr HC. unfold merge_json, merge_spec.
+  destruct (negb (is_obj b && is_obj l && is_obj r)); [reflexivity|].
+  unfold merge_side_conditions in HC.
+  apply andb_true_iff in HC as [HC HRL]. apply andb_true_iff in HC as [HC HUR]. apply andb_true_iff in HC as [HRA HUL].
+  set (L := json_diff b l) in *. set (R := json_diff b r) in *.
+  assert (HE : three_way_impl L R = three_way_doc L R).
+  { unfold three_way_impl, three_way_doc. apply three_way_ext. intros dl dr Hl Hr.
+    unfold raw_agrees in HRA. rewrite forallb_forall in HRA. specialize (HRA dl Hl).
+    rewrite forallb_forall in HRA. specialize (HRA dr Hr). unfold raw_agrees_pair in HRA.
+    apply andb_true_iff in HRA as [HRA H4]. apply andb_true_iff in HRA as [HRA H3]. apply andb_true_iff in HRA as [H1 H2].
+    apply comparison_eqb_eq in H1. apply Bool.eqb_prop in H2. apply Bool.eqb_prop in H3. apply Bool.eqb_prop in H4.
+    repeat split; assumption. }
+  rewrite HE.
+  rewrite (three_way_doc_spec L R (json_diff_sorted b l Wb Wl) (json_diff_sorted b r Wb Wr)
+             (pairwise_unrelated_spec L HUL) (pairwise_unrelated_spec R HUR)).
+  unfold three_way_spec_result. destruct (conflict_spec L R); [reflexivity|].
+  rewrite removes_last_apply by exact HRL. reflexivity.
+Qed.
+
+(* the side conditions are satisfiable on a merge with edits on both sides, and false on the witnesses *)
+Example merge_side_conditions_examples :
+  merge_side_conditions (JObj [(k_a, JNum 1); (k_b, JNum 1)]) (JObj [(k_a, JNum 2); (k_b, JNum 1)]) (JObj [(k_a, JNum 1); (k_b, JNum 3)]) = true
+  /\ merge_side_conditions w1_base w1_left w1_right = false
+  /\ merge_side_conditions w2_base w2_left w2_right = false.
+Proof. vm_compute. repeat split. Qed.
+
+(* ------------------------------------------------------------------ *)
+(* 8. op_algebra: laws of the reference (in-memory) operations that the stored document must match. *)
+
+(* a change flag of false means the document is returned as it was — every mode, every path *)
+Theorem unchanged_same : forall p m d v d', walk m p d v = ROk d' false -> d' = d.
+Proof.
+  induction p as [|l rest IH]; intros m d v d' H.
+  - cbn [walk] in H. unfold walk_end in H. destruct m, d; inversion H; reflexivity.
+  - destruct l as [k| n | | n].
+    + cbn [walk] in H. destruct d; try (destruct m; inversion H; reflexivity).
+      destruct rest as [|l2 rest2].
+      * destruct m; try discriminate H.
+        all: try (match type of H with context [if ?c then _ else _] => destruct c end; inversion H; try reflexivity;
+                  match goal with H2 : context [if ?c then _ else _] |- _ => destruct c; inversion H2; reflexivity end).
+        -- destruct (obj_get k l) as [cur|]; [|inversion H; reflexivity].
+           destruct (walk_end MAppend cur v) as [|nd ch]; [discriminate|]. destruct ch; inversion H; reflexivity.
+      * destruct (walk m (l2 :: rest2) match obj_get k l with Some c => c | None => JNull end v) as [|nd ch]; [discriminate|].
+        destruct ch; inversion H; reflexivity.
+    + cbn [walk] in H. destruct d;
+        try (unfold treat_as_array in H; destruct (parse_index (LIdx n) 0) as [[i u] o]; destruct u, o, m; inversion H; reflexivity).
+      destruct (parse_index (LIdx n) (Z.of_nat (length l) - 1)) as [[i u] o].
+      destruct (u && negb (mode_eqb m MSet)); [inversion H; reflexivity|].
+      destruct ((Z.of_nat (length l) >? i)%Z && negb o).
+      * destruct rest as [|l2 rest2]; destruct m; try (inversion H; reflexivity);
+          (destruct (walk _ _ (nth (Z.to_nat i) l JNull) v) as [|nd ch]; [discriminate|]; destruct ch; inversion H; reflexivity).
+      * destruct m; inversion H; reflexivity.
+    + cbn [walk] in H. destruct d;
+        try (unfold treat_as_array in H; destruct (parse_index LLast 0) as [[i u] o]; destruct u, o, m; inversion H; reflexivity).
+      destruct (parse_index LLast (Z.of_nat (length l) - 1)) as [[i u] o].
+      destruct (u && negb (mode_eqb m MSet)); [inversion H; reflexivity|].
+      destruct ((Z.of_nat (length l) >? i)%Z && negb o).
+      * destruct rest as [|l2 rest2]; destruct m; try (inversion H; reflexivity);
+          (destruct (walk _ _ (nth (Z.to_nat i) l JNull) v) as [|nd ch]; [discriminate|]; destruct ch; inversion H; reflexivity).
+      * destruct m; inversion H; reflexivity.
+    + cbn [walk] in H. destruct d;
+        try (unfold treat_as_array in H; destruct (parse_index (LLastMinus n) 0) as [[i u] o]; destruct u, o, m; inversion H; reflexivity).
+      destruct (parse_index (LLastMinus n) (Z.of_nat (length l) - 1)) as [[i u] o].
+      destruct (u && negb (mode_eqb m MSet)); [inversion H; reflexivity|].
+      destruct ((Z.of_nat (length l) >? i)%Z && negb o).
+      * destruct rest as [|l2 rest2]; destruct m; try (inversion H; reflexivity);
+          (destruct (walk _ _ (nth (Z.to_nat i) l JNull) v) as [|nd ch]; [discriminate|]; destruct ch; inversion H; reflexivity).
+      * destruct m; inversion H; reflexivity.
+Qed.
+
+Definition keys_only (p : list leg) : bool := forallb (fun l => match l with LKey _ => true | _ => false end) p.
+
+Lemma obj_get_set k v l : obj_get k (obj_set k v l) = Some v.
+Proof.
+  induction l as [|[k' v'] t IH]; cbn [obj_set obj_get].
+  - rewrite beq_bytes_refl. reflexivity.
+  - destruct (lex_cmp k k') eqn:C; cbn [obj_get].
+    + rewrite beq_bytes_refl. reflexivity.
+    + rewrite beq_bytes_refl. reflexivity.
+    + destruct (beq_bytes k k') eqn:E; [|exact IH].
+      apply beq_bytes_spec in E. subst. rewrite lex_cmp_refl in C. discriminate.
+Qed.
+
+(* set p v, then lookup p, gives v — for every document and every path of object keys on which the
+   set takes effect (change flag true) *)
+Theorem set_then_lookup : forall p d v d', keys_only p = true ->
+  walk MSet p d v = ROk d' true -> lookup p d' = Some v.
+Proof.
+  induction p as [|l rest IH]; intros d v d' HK H.
+  - cbn in H. inversion H. reflexivity.
+  - destruct l as [k| | |]; try discriminate HK. cbn [keys_only forallb] in HK.
+    cbn [walk] in H. destruct d; try discriminate H.
+    destruct rest as [|l2 rest2].
+    + cbn [mode_eqb orb] in H. inversion H. cbn [lookup]. rewrite obj_get_set. reflexivity.
+    + destruct (walk MSet (l2 :: rest2) match obj_get k l with Some c => c | None => JNull end v) as [|nd ch] eqn:W; [discriminate|].
+      destruct ch; [|discriminate H]. inversion H. cbn [lookup]. rewrite obj_get_set.
+      apply (IH _ _ _ HK W).
+Qed.
+
+Lemma obj_get_none_gt k t : Forall (fun kv => lex_cmp k (fst kv) = Lt) t -> obj_get k t = None.
+Proof.
+  induction t as [|[k' v'] t IH]; intros HF; [reflexivity|]. inversion HF as [|x y H1 H2]; subst. cbn [fst] in H1.
+  cbn [obj_get]. destruct (beq_bytes k k') eqn:E; [|apply IH; exact H2].
+  apply beq_bytes_spec in E. subst. rewrite lex_cmp_refl in H1. discriminate.
+Qed.
+
+Lemma obj_get_del k l : keys_sorted l = true -> obj_get k (obj_del k l) = None.
+Proof.
+  induction l as [|[k' v'] t IH]; intros HS; [reflexivity|].
+  destruct (keys_sorted_inv _ _ _ HS) as [HS' HG].
+  cbn [obj_del]. destruct (beq_bytes k k') eqn:E.
+  - apply beq_bytes_spec in E. subst. apply obj_get_none_gt. exact HG.
+  - cbn [obj_get]. rewrite E. apply IH. exact HS'.
+Qed.
+
+Lemma obj_get_wf k l c : forallb (fun kv => wf_json (snd kv)) l = true -> obj_get k l = Some c -> wf_json c = true.
+Proof.
+  induction l as [|[k' v'] t IH]; intros HW HG; [discriminate|].
+  cbn [forallb snd] in HW. apply andb_true_iff in HW as [H1 H2]. cbn [obj_get] in HG.
+  destruct (beq_bytes k k'); [inversion HG; subst; exact H1 | exact (IH H2 HG)].
+Qed.
+
+(* remove p, then lookup p, finds nothing — for every well-formed document and every non-empty path
+   of object keys on which the removal takes effect *)
+Theorem remove_then_lookup : forall p d d', keys_only p = true -> p <> [] -> wf_json d = true ->
+  walk MRemove p d JNull = ROk d' true -> lookup p d' = None.
+Proof.
+  induction p as [|l rest IH]; intros d d' HK HN HW H; [congruence|].
+  destruct l as [k| | |]; try discriminate HK. cbn [keys_only forallb] in HK.
+  cbn [walk] in H. destruct d; try discriminate H.
+  cbn [wf_json] in HW. apply andb_true_iff in HW as [HS HV].
+  destruct rest as [|l2 rest2].
+  - cbn [mode_eqb orb andb] in H. rewrite !andb_false_r in H. cbn [orb] in H.
+    destruct (obj_get k l) eqn:G; cbn [andb] in H; [|discriminate H]. inversion H.
+    cbn [lookup]. rewrite obj_get_del by exact HS. reflexivity.
+  - destruct (walk MRemove (l2 :: rest2) match obj_get k l with Some c => c | None => JNull end JNull) as [|nd ch] eqn:W; [discriminate|].
+    destruct ch; [|discriminate H]. inversion H. cbn [lookup]. rewrite obj_get_set.
+    apply (IH _ _ HK ltac:(discriminate)) in W; [exact W|].
+    destruct (obj_get k l) eqn:G; [exact (obj_get_wf _ _ _ HV G) | reflexivity].
+Qed.
+
+(* insert does not touch a location that exists; replace does not create one *)
+Theorem insert_existing_noop : forall k kv v cur, obj_get k kv = Some cur ->
+  walk MInsert [LKey k] (JObj kv) v = ROk (JObj kv) false.
+Proof. intros k kv v cur G. cbn [walk]. rewrite G. reflexivity. Qed.
+Theorem replace_missing_noop : forall k kv v, obj_get k kv = None ->
+  walk MReplace [LKey k] (JObj kv) v = ROk (JObj kv) false.
+Proof. intros k kv v G. cbn [walk]. rewrite G. reflexivity. Qed.
+
+(* Not proved (op_algebra stays partial): operations on disjoint paths commute; the laws above for
+   paths with array-index legs (in-range indexes behave like keys, out-of-range ones append). *)
+
+(* ------------------------------------------------------------------ *)
+(* 9. The oracle holds on the model wherever the property is proved: under the side conditions the
+   model's merge observation passes the merge oracle; the location oracle passes on the model's keys. *)
+Theorem oracle_on_model_merge : forall b l r,
+  wf_json b = true -> wf_json l = true -> wf_json r = true -> merge_side_conditions b l r = true ->
+  mres_eqb (merge_spec b l r) (merge_json b l r) = true -> 
+  oracle (CMerge b l r, OMerge (mobs_of (merge_json b l r)) (mobs_of (merge_json b l r)) [] [] [] []) = true.
+Proof.
+  intros b l r Wb Wl Wr HC HE. cbn [oracle]. rewrite (merge_json_partial b l r Wb Wl Wr HC) in *.
+  assert (HM : forall m, mres_eqb m m = true -> mobs_eqb (mobs_of m) (mobs_of m) = true).
+  { intros m Hm. destruct m; unfold mobs_eqb, mobs_of; cbn; [reflexivity | exact Hm]. }
+  rewrite (HM _ HE). reflexivity.
+Qed.
+
+Theorem oracle_on_model_loc : forall p q, Forall key_ok p -> Forall key_ok q ->
+  oracle (CLoc p q, OLoc false (ekey p) (ekey q) (cmp_code (cmp_keys (ekey p) (ekey q)))) = true.
+Proof.
+  intros p q Hp Hq. cbn [oracle negb andb].
+  assert (HK : cmp_keys (ekey p) (ekey q) = doc_cmp p q).
+  { unfold cmp_keys, ekey, enc_key. rewrite <- (loc_order p q Hp Hq). reflexivity. }
+  rewrite HK. apply Z.eqb_refl.
+Qed.
